@@ -379,11 +379,25 @@ def lookup_unit(p, item, tier, seed):
                     mask = rnd.randrange(1, 1 << n)
                     neg = rnd.random() < 0.5
                     table[r_] = [(bin(j & mask).count("1") % 2 == 1) != neg for j in range(1 << n)]
-            excl_names = rnd.choice(EXCL)
+            if it_ % 3 == 1:
+                # a function and its complement both fully defined, next to a row that can be completed to either
+                m = 3
+                table = [[rnd.random() < 0.5 for _ in range(1 << n)] for _ in range(m)]
+                i1, i2, kind_ = rnd.randrange(n), rnd.randrange(n), rnd.choice(["and", "or", "xor", "gt", "random"])
+                bit = lambda j, i: ((j >> (n - 1 - i)) & 1) == 1  # noqa: E731
+                f = [{"and": bit(j, i1) and bit(j, i2), "or": bit(j, i1) or bit(j, i2), "xor": bit(j, i1) != bit(j, i2), "gt": bit(j, i1) and not bit(j, i2),
+                      "random": rnd.random() < 0.5}[kind_] for j in range(1 << n)]
+                table[0] = list(f)
+                table[1] = [not v for v in f]
+                if m >= 3:
+                    table[2] = list(f) if rnd.random() < 0.5 else [not v for v in f]
+            excl_names = rnd.choice(EXCL) if it_ % 3 != 1 else None
             excl = None if excl_names is None else tuple(getattr(G, t) for t in excl_names)
             model = [list(r) for r in table]
             pos = [(i, j) for i in range(m) for j in range(1 << n)]
             dcs = rnd.sample(pos, rnd.randint(1, 4))
+            if it_ % 3 == 1 and m >= 3:
+                dcs = [(2, j) for j in rnd.sample(range(1 << n), rnd.randint(1, min(4, 1 << n)))]
             for i, j in dcs:
                 model[i][j] = DontCare
             p.case(("dc", name, repr(table), repr(dcs), excl_names), sample=f"{name} don't-care look-up {m}x{1 << n} with {len(dcs)} don't-cares" if len(p.samples) < 6 else None)
